@@ -29,7 +29,11 @@ def finding_key(req, obs, detail):
             key = pre + "(bin BitwiseAnd (id a) (id a)))"
         # … and inside a tree that has template arguments of its own: the harness marks a failure whose *minimal* tree has
         # no expression-or-type position although its printed text reads back with one (`a << a < a ? a : a > (a ? a : a)`)
-        if key.startswith("tree-differs") and " reread-invents-template-args min=" in (detail or ""):
+        if key.startswith("tree-differs") and " reread-invents-template-args" in (detail or "").split(" min=")[0]:
+            key = pre + "(bin BitwiseAnd (id a) (id a)))"
+        # … or the text is rejected because the would-be argument list does not parse (`a < a & a > (Foo<a>)a`): the minimal
+        # tree keeps a `<` and a `>` operator outside every expression-or-type position and prints `>` in front of `(`
+        if key.startswith(("tree-differs", "rejected-by-parser")) and " lt-gt-paren" in (detail or "").split(" min=")[0]:
             key = pre + "(bin BitwiseAnd (id a) (id a)))"
         return key
     m = re.match(r"FAIL:panic ([^:]+):\d+: (.*)$", detail or "")
@@ -45,7 +49,7 @@ def harness_args(tier, seed):
 SPEC = {
     "id": "C09",
     "gens": ["FmtTables", "ParseTables", "SyntaxTables", "LexTables", "LitFormatTables"],
-    "lean_modules": ["RsslVerif.Thm.C09", "RsslVerif.Thm.C10", "RsslVerif.Lemmas.LiteralText"],
+    "lean_modules": ["RsslVerif.Thm.C09", "RsslVerif.Thm.C10", "RsslVerif.Lemmas.LiteralText", "RsslVerif.Lemmas.TArgClosed"],
     "level_note": "roundtrip_xexpr_partial / roundtrip_stmt_partial / roundtrip_decl_partial / roundtrip_function_partial / "
                   "roundtrip_struct_partial: WF / WFS / WFVarDef / WFFn / WFStruct are decidable syntactic carve-outs "
                   "(notes/C09.md; after fix batch 2 they no longer exclude operators in template / sizeof arguments nor comma "
@@ -64,6 +68,9 @@ SPEC = {
         "eot_parenthesised_admissible", "eot_parenthesises_from_shift",
         "sizeof_shift_roundtrips", "template_arg_shift_roundtrips", "template_arg_comma_roundtrips", "template_arg_less_roundtrips",
         "former_witnesses_wf", "less_greater_paren_regroups",
+        # a printed template argument / sizeof operand is closed under the bracket scanner (seeded mutant C09-6)
+        "template_argument_closed", "template_argument_list_closed", "template_argument_brackets_match",
+        "eot_threshold_closes", "bare_conditional_not_closed",
         # statements and local variable definitions (Model/FormatStmt + Model/ParseStmt)
         "roundtrip_stmt_partial", "roundtrip_block_partial", "roundtrip_decl_partial", "dangling_else_regroups",
         "attribute_comma_roundtrips", "for_init_pointer_reads_as_expr",
@@ -111,6 +118,13 @@ SPEC = {
                   "object of a member access (member_of_int_literal_roundtrips), struct base types (struct_base_types_roundtrip), and a "
                   "negative literal is parenthesised exactly like the unary minus of its magnitude (negative_literal_binds_like_minus; "
                   "paren_rule_matches_grammar quantifies over negative literals as productions of the prefix level). "
+                  "template_argument_closed / template_argument_list_closed: for every expression-or-type tree (all node kinds, any "
+                  "depth, types with nested lists and declarators) the printed tokens are invisible to a bracket scanner in every "
+                  "state - no >, >=, >>, >>= or comma outside brackets, every < outside parentheses closed inside the entry - so the "
+                  "angle brackets of a template argument list stay matched (template_argument_brackets_match); proved by mutual "
+                  "induction from the generated (eotExprPrec, eotExprSide) alone (eot_threshold_closes: the conditional, the comma, "
+                  "the assignments, the relational and the shift operators are parenthesised there), with the witness that a "
+                  "conditional with > printed bare is not closed (bare_conditional_not_closed - what seeded mutant C09-6 prints). "
                   "Table-level obligations (precedence <-> level, "
                   "associativity, spelling <-> tokens, operator glue, modifier spelling <-> keyword <-> parser arm) are decided over "
                   "the regenerated tables, and 63 hand-modelled functions are fingerprinted. The text of non-negative integer literals of every suffix is "
@@ -125,7 +139,11 @@ SPEC = {
             "+ parse, locations stripped, ambiguous parse branches / ambiguous statements resolved with the type names of the "
             "original tree; oracle = same tree and identical second print. Streams: exhaustive depth<=3 over 3 leaves x 6 unary x "
             "12 binary operators + ternary/subscript/member/call; random depth 2-6 over all operators in 5 contexts; random with "
-            "exporter-only shapes; casts / sizeof / template calls over types with all modifiers, nested template arguments and "
+            "exporter-only shapes; template-args: every node kind over every node kind (all 30 binary operators, conditionals "
+            "in each operand position, casts, sizeof, nested template calls; depth 4 under assignment / comma / conditional / "
+            "minus / cast) in nine expression-or-type positions (call and type-name template argument alone / first / after a "
+            "type, sizeof operand, argument of a type that is itself an argument, array size of an abstract declarator) plus "
+            "random depth 3-6 trees weighted towards ?: < > >= >> >>= <= << , = in those positions; casts / sizeof / template calls over types with all modifiers, nested template arguments and "
             "declarators; literals of every kind over the whole value range; statement trees and function / struct definition trees of random programs; random source "
             "modules (statements, declarators, functions with attributes / templates / semantics / defaults, structs with "
             "methods and base types, enums, cbuffers, namespaces, resource globals). non-trivial = at least two operator nodes",
